@@ -187,7 +187,7 @@ func genBoltFrame(c *hx.Ctx, r *hx.Rng) *boltFrame {
 	f.ver1 = byte(r.Pick([]int{1, 1, 2, 0, 255}))
 	f.sw = byte(r.Pick([]int{0, 0, 1, 255}))
 	// keep the big boundaries rare: they dominate the run time
-	big := r.Chance(12)
+	big := r.Chance(c.N(12, 7))
 	cl := pickLen(r, 65535)
 	if cl > 3000 && !big {
 		cl = r.Intn(40)
@@ -271,7 +271,7 @@ func runBolt(c *hx.Ctx) {
 		}
 		return "bolt", pb
 	}
-	n := c.N(3000, 26000)
+	n := c.N(3000, 18000)
 	for i := 0; i < n; i++ {
 		f := genBoltFrame(c, r)
 		// mostly the frame's own codec; sometimes the sibling codec (they hand over to each other on the first byte)
